@@ -128,6 +128,13 @@ def s_authentic(rng, compat=None, flags=None):
         tab.insert(rng.randrange(2), (S.rand_bytes(rng, 3), S.rand_bytes(rng, 8)))
     if rng.random() < 0.05:
         tab = [(user, rng.choice([None, b""]))]
+    if rng.random() < 0.2:
+        # names related by prefix: "the key bound to its USERNAME" means the whole name, not a leading part of it
+        k = rng.randrange(1, len(user)) if len(user) > 1 else 1
+        tab = rng.choice([[(user[:k], pw)] if len(user) > 1 else [(user + b"x", pw)],      # only a proper prefix is registered, with the message's key
+                          [(user + b":adm", pw)],                                          # only a longer name is registered
+                          [(user[:k], S.rand_bytes(rng, 8)), (user, pw)],                  # a prefix with another key comes first
+                          [(user, pw), (user[:k], S.rand_bytes(rng, 8))]])
     lines = [agent_line(compat, flags), f"stun val {S.hx(m)} {table_str(tab)}"]
     for _ in range(rng.choice([2, 4, 8])):
         lines.append(f"stun val {S.hx(corrupt(rng, m))} {table_str(tab)}")
